@@ -532,6 +532,17 @@ class Exec:
 
     def op_to_mask(self, a):
         reg = a.slot(PIXREG)
+        try:
+            # bounded runs: a derived region (e.g. to_pixel of a sky compound
+            # whose members are 100 deg apart) may span 1e5 pixels; its mask
+            # would need gigabytes
+            shp = reg.bounding_box.shape
+            if shp[0] * shp[1] > 2_000_000:
+                raise Skip()
+        except Skip:
+            raise
+        except Exception:
+            pass
         mode = a.rng.pick(MODES)
         sub = a.rng.randint(1, 12)
         if a.bad():
